@@ -399,7 +399,54 @@ def c11_8(ctx):
     return out
 
 
+def c11_9(ctx):
+    """The n of `get_quorum` is the number of keys in the script *and* the value of OP_n: the summary compares it with the
+    inputs' n and with the number of named keys, so a script `OP_m K1…Kn X OP_n CHECKMULTISIG` (an extra key) or an OP_n
+    that differs from the key count must not be summarised as the wallet's m-of-n."""
+    out = []
+    for spec in ("script:RedeemScript.get_quorum", "script:WitnessScript.get_quorum"):
+        mod, fn = rl.get(ctx, spec)
+        cfg = cfg_of(fn)
+        rets = [n for n in cfg.returns() if n.ast is not None and isinstance(n.ast.value, ast.Tuple) and len(n.ast.value.elts) == 2]
+        if not rets:
+            raise AnalysisError("%s: `return m, n` not found" % spec)
+
+        def kinds(nid, e):
+            at = origins(fn, nid, e)
+            txt = ast.unparse(expand(fn, nid, e, depth=6))
+            return ("len(self.commands)" in txt, "self.commands[-2]" in txt)
+        for n in rets:
+            cnt, opn = kinds(n.id, n.ast.value.elts[1])
+            # a guard relating the two readings before the return
+
+            def match(node, ex, atoms):
+                t = node.ast
+                if isinstance(t, ast.Compare) and len(t.ops) == 1 and isinstance(t.ops[0], (ast.Eq, ast.NotEq)):
+                    a = kinds(node.id, t.left)
+                    b = kinds(node.id, t.comparators[0])
+                    if (a[0] and b[1] and not a[1] and not b[0]) or (a[1] and b[0] and not a[0] and not b[1]):
+                        return BAD_TRUE if isinstance(t.ops[0], ast.NotEq) else BAD_FALSE
+                return None
+            from sa.guard import check_guard, find_guards
+            gs = find_guards(mod, fn, match)
+            ok = False
+            if gs:
+                ok, msg, wit = check_guard(mod, fn, gs, [n.id])
+            if ok and (cnt or opn):
+                out.append(ctx.ok(spec, "n is returned only when OP_n equals the number of keys (len(commands) - 3)", n.ast, mod, key="n-counts-keys"))
+            elif cnt and not opn:
+                out.append(ctx.bad(spec, "n is the number of pushed elements but OP_n is never compared with it: `OP_2 A B C OP_4 CHECKMULTISIG` is reported as 2-of-3",
+                                   n.ast, mod, key="n-counts-keys"))
+            elif opn and not cnt:
+                out.append(ctx.bad(spec, "n is read from the OP_n opcode and the number of keys in the script is never compared with it: `OP_2 A B C X OP_3 CHECKMULTISIG` "
+                                         "(an extra key) is reported as 2-of-3 and an output committing to it is labelled change", n.ast, mod, key="n-counts-keys"))
+            else:
+                out.append(ctx.err(spec, "how n is obtained is not recognised: `%s`" % ast.unparse(expand(fn, n.id, n.ast.value.elts[1], depth=6))[:100], n.ast, mod))
+    return out
+
+
 OBLIGATIONS = [
+    ("C11.9", "GUARD relation", c11_9),
     ("C11.1", "GUARD commitment", c11_1),
     ("C11.2", "GUARD", c11_2),
     ("C11.3", "GUARD accumulator", c11_3),
